@@ -161,11 +161,13 @@ func (s *swamp) applyPatchExpiredOne(treasureObj treasure.Treasure, ops []msgpac
 	// still re-encodes the body deterministically; that is fine.
 	treasureObj.SetContentByteArray(guardID, wrapMsgpackBody(out))
 	applyPatchMeta(treasureObj, guardID, meta, false)
+	// read the resulting expiry before Save: in immediate-write mode Save releases the guard,
+	// and a queued writer of the same key could change the expiry before it is reported
+	entry.ExpiredAt = expirationTimeAsTime(treasureObj.GetExpirationTime())
 	treasureObj.Save(guardID)
 
 	entry.Status = PatchStatusPatched
 	entry.NewMsgpack = out
-	entry.ExpiredAt = expirationTimeAsTime(treasureObj.GetExpirationTime())
 	return entry
 }
 
